@@ -18,7 +18,11 @@ OkS(v) == {Ok(v)}
 ErrS == {ERR}
 IsOk(o) == o[1] = "ok"
 (* sequencing in the error monad, lifted to outcome sets *)
-Bind(S, F(_)) == UNION {IF o[1] = "ok" THEN F(o[2]) ELSE {o} : o \in S}
+(* An error (or a panic of a deviation) of the sub-expression is the outcome of the whole.  The open outcomes are not:
+   "any finite number or null" says something about the value of THAT sub-expression only; what an enclosing
+   construct makes of the unknown value is unspecified, so numornull becomes unspec when it passes through a context. *)
+Up(o) == IF o = NUMORNULL THEN UNSPEC ELSE o
+Bind(S, F(_)) == UNION {IF o[1] = "ok" THEN F(o[2]) ELSE {Up(o)} : o \in S}
 
 NameCps == [abs |-> <<97, 98, 115>>,
             avg |-> <<97, 118, 103>>,
